@@ -1,3 +1,4 @@
 # C19 part "race": the same harness overlay, built with the race detector.
 # cmd/vqrace is executed by the C19 check (cmd/vq/c19_race.go) as a sub-process.
 build_bin vqrace vqrace - -race
+. $V/checks.d/_vqm.inc
